@@ -156,6 +156,8 @@ struct Fault {
     reject_rcpt: Option<usize>,
     /// answer the recipient of this transaction with 450
     temp_rcpt: Option<usize>,
+    /// answer the DATA command of this transaction with 451
+    temp_data: Option<usize>,
     /// answer this NOOP (1-based) with 421 and close
     noop_421: Option<usize>,
     /// answer this NOOP only after 1.5 x the client's read timeout
@@ -179,6 +181,7 @@ fn parse_faults(s: &str) -> Option<HashMap<usize, Fault>> {
             "d" => e.drop_after = Some(n),
             "r" => e.reject_rcpt = Some(n),
             "t" => e.temp_rcpt = Some(n),
+            "a" => e.temp_data = Some(n),
             "x" => e.noop_421 = Some(n),
             "s" => e.slow_noop = Some(n),
             "w" => e.slow_commit = Some(n),
@@ -313,9 +316,14 @@ fn serve_conn(s: std::net::TcpStream, fault: Fault, cid: usize, log: ServerLog) 
                 let _ = w.write_all(b"250 ok\r\n");
             }
         } else if up.starts_with("DATA") {
-            push("D".into());
-            data = true;
-            let _ = w.write_all(b"354 go\r\n");
+            if fault.temp_data == Some(txn) {
+                push("Dt".into());
+                let _ = w.write_all(b"451 local error in processing\r\n");
+            } else {
+                push("D".into());
+                data = true;
+                let _ = w.write_all(b"354 go\r\n");
+            }
         } else if up.starts_with("QUIT") {
             push("Q".into());
             let _ = w.write_all(b"221 bye\r\n");
